@@ -37,7 +37,11 @@ type Failure struct {
 }
 
 func Failf(sig string, step int, format string, args ...any) *Failure {
-	return &Failure{Signature: sig, Step: step, Msg: fmt.Sprintf(format, args...)}
+	msg := fmt.Sprintf(format, args...)
+	if len(msg) > 6000 { // large values in a message would turn the replay file into megabytes; the case itself holds the data
+		msg = msg[:3000] + fmt.Sprintf(" ...[%d bytes elided]... ", len(msg)-6000) + msg[len(msg)-3000:]
+	}
+	return &Failure{Signature: sig, Step: step, Msg: msg}
 }
 
 // Obs collects what a single case covered.
